@@ -99,6 +99,18 @@ Definition top_ok (t : stmt) : bool :=
 
 Definition nesting_ok (body : list stmt) : bool := forallb top_ok (flat_map tops body).
 
+(* at most 3 @outer and 3 @inner loops on every maximal OKL loop path (the launch grid has 3 dimensions) *)
+Fixpoint count_attr (a : lattr) (sg : list lattr) : nat :=
+  match sg with
+  | [] => 0
+  | b :: tl => (if lattr_eqb a b then 1 else 0) + count_attr a tl
+  end.
+
+Definition depth_sig_ok (sg : list lattr) : bool :=
+  Nat.leb (count_attr LO sg) 3 && Nat.leb (count_attr LI sg) 3.
+
+Definition depth_rule (body : list stmt) : bool := forallb depth_sig_ok (flat_map sigs body).
+
 Fixpoint has_attr (a : lattr) (s : stmt) : bool :=
   match s with
   | Node k kids =>
@@ -165,6 +177,7 @@ Definition rules_b (k : kernel) : bool :=
   && existsb (has_attr LI) (k_body k)
   && forallb loops_ok (k_body k)
   && nesting_ok (k_body k)
+  && depth_rule (k_body k)
   && forallb (place_ok false false) (k_body k)
   && forallb (bc_ok TNone TNone) (k_body k).
 
@@ -187,5 +200,6 @@ Definition Rules (k : kernel) : Prop :=
   /\ (exists s, In s (k_body k) /\ has_attr LI s = true)
   /\ (forall s, In s (k_body k) -> loops_ok s = true)
   /\ (forall t, In t (flat_map tops (k_body k)) -> TopOK t)
+  /\ (forall sg, In sg (flat_map sigs (k_body k)) -> count_attr LO sg <= 3 /\ count_attr LI sg <= 3)
   /\ (forall s, In s (k_body k) -> place_ok false false s = true)
   /\ (forall s, In s (k_body k) -> bc_ok TNone TNone s = true).
